@@ -12,7 +12,7 @@ import (
 func CorsCases(seed int64, n int) []Case {
 	rng := rand.New(rand.NewSource(seed*71 + 29))
 	var out []Case
-	hdrNames := []string{"X-Request-Id", "Idempotency-Key", "If-Match", "x-trace", "X-Tenant", "accept-language"}
+	hdrNames := []string{"X-Request-Id", "Idempotency-Key", "If-Match", "x-trace", "X-Tenant", "accept-language", "Accept", "Content-Type"}
 	for i := 0; i < n; i++ {
 		d := NewDoc("cors")
 		sec := []string{"", "bearer", "keyhdr", "both", "keyqry"}[rng.Intn(5)]
